@@ -50,6 +50,26 @@ def parse(code, mode="exec", lineno_offset=0, **exception_kwargs):
         ) from e
 
 
+def visit(visitor, tree, **exception_kwargs):
+    """Run ``visitor`` over ``tree``.
+
+    The visitors recurse once per level of the AST; Python code that the
+    parser accepts can still be nested deeper than the interpreter's
+    recursion limit allows them to go (a chain of a few hundred ``+``,
+    attribute accesses, ``lambda:`` ...), which is reported like any other
+    fault in the Python code of a template.
+
+    """
+    try:
+        visitor.visit(tree)
+    except RecursionError as e:
+        raise exceptions.SyntaxException(
+            "(RecursionError) Python code is nested too deeply to be "
+            "analysed",
+            **exception_kwargs,
+        ) from e
+
+
 def _adjust_lineno(exc, lineno_offset, exception_kwargs):
     """Return ``exception_kwargs`` with the line of ``exc`` within the parsed
     code applied to it.
